@@ -41,6 +41,7 @@ type seqEvent struct {
 	rates  kit.Rates // nil: no price records in the block (ungraded)
 	weak   bool      // price records present but too few to grade: the block has a grading row and no rates
 	burn   uint64    // FCT burnt by A in this block (credited as pFCT before 2.0 only)
+	sprOff string    // staking records quote this asset 2.5x higher than the oracle records (from 2.0.2 on: recorded as 0)
 	submit []seqTx
 }
 
@@ -82,6 +83,11 @@ func seqAlphabet(era drive.Era) []seqEvent {
 		{name: "Bn", rates: R1(), burn: 7e8, submit: one("A:fct>usd", KA, kit.Conversion(A, "pFCT", 7e8, "pUSD"))},
 		{name: "Wr", rates: R1(), submit: []seqTx{{name: "A>wrap", signer: KA, malformed: true, txs: []kit.Tx{{From: A, Asset: "pUSD", Amount: U / 10, To: []kit.Out{{Addr: B, Amount: 1<<63 - 1}, {Addr: C, Amount: 1<<63 - 1}, {Addr: B, Amount: U/10 + 2}}}}}}},
 		{name: "X", rates: R2(), submit: one("A:usd>jpy,A:jpy>B", KA, kit.Conversion(A, "pUSD", U/10, "pJPY"), kit.Transfer(A, "pJPY", U/10*50, B))},
+	}
+	if era.V202 != drive.Never {
+		// the staking records put pEUR outside the oracle records' tolerance band: from 2.0.2 on the block is rated, with
+		// pEUR recorded as 0 (a zero inside later averaging windows; pEUR conversions executing here are rejected)
+		ev = append(ev, seqEvent{name: "Z", rates: R2(), sprOff: "EUR"})
 	}
 	return ev
 }
@@ -714,6 +720,9 @@ func (x *seqX) step(n *seqNode, ei int, report bool) (*seqNode, bool) {
 		if ev.weak {
 			spec.NOPR = 3
 		}
+	}
+	if ev.sprOff != "" && h >= era.V20 {
+		spec.SPR = sprSet(era, h, ev.rates.With(ev.sprOff, ev.rates[kit.AssetIndex(ev.sprOff)]*5/2), AddrA[:], KA, 25)
 	}
 	if ev.burn != 0 {
 		spec.Factoid = []fake.FTx{kit.Burn(KA, ev.burn, BurnRCD(), int64(h))}
